@@ -1,7 +1,7 @@
 //! Start-up self-checks of the C03 oracle (exit 3 when one fails) and the frozen floors.
 
-use crate::a64_asm as asm;
-use crate::a64_ref::{self, Addr, BReg, Decoded, Insn, MemOp, Shift};
+use super::a64_asm as asm;
+use super::a64_ref::{self, Addr, BReg, Decoded, Insn, MemOp, Shift};
 
 fn lcg(s: &mut u64) -> u32 {
     *s = s.wrapping_mul(6364136223846793005).wrapping_add(1442695040888963407);
